@@ -75,6 +75,17 @@ CLAIMED['C13'] = dict(
           "is modelled for step 1 slices only."),
     ref="DESIGN.md section 4 C13")
 
+CLAIMED['C18'] = dict(
+    technique="Coq refinement proof (per-class factory lists vs registration log, reversed-MRO walk) by induction over histories; model tied by differential runs",
+    text=("Theorems for every history of class definitions and pre/post registrations: the per-class lists are exactly the "
+          "registrations made on that class since its definition; a solve runs pre-processors of base classes before subclasses, in "
+          "registration order, skipping factories that return nothing, each on its predecessor's output, then the unit, then the "
+          "post-processors in the same order on the returned profile only; a registration applies to exactly the classes having "
+          "the registering class in their MRO (whenever defined)."),
+    note=("Trusted: Coq kernel (no axioms); hand-written model coq/lib/Processors.v tied to unit.py by the correspondence run on real "
+          "dynamically created Transport subclasses (alone and inside sequences); processors are modelled by the mark they leave."),
+    ref="DESIGN.md section 4 C18")
+
 NOT_YET = {}
 
 
